@@ -326,7 +326,7 @@ class C03(F.PropCheck):
         elif stop < 0.10:
             evs.append(('SRV', [C['CALL_CALCFG'], rr], m_calcfg(1, -1, C['CMD_ENTER_CFG_MODE'], 1, 0, b''))); tags.add('stop:enter_cfgmode')
         elif stop < 0.13:
-            evs.append(('SRV', [C['CALL_REGISTER_RESULT'], rr], struct.pack('<iBBB', rng.choice([5, 6, 9, 77]), 0, 23, 1))); tags.add('stop:register_failed')
+            evs.append(('SRV', [C['CALL_REGISTER_RESULT'], rr], struct.pack('<iBBB', rng.choice([5, 6, 9, 77, 1000000, -100000, 2 ** 31 - 1, -2 ** 31, rng.getrandbits(32) - 2 ** 31]), 0, 23, 1))); tags.add('stop:register_failed')
         elif stop < 0.15:
             evs.append(('SRV', [C['CALL_VERSIONERROR'], rr], bytes([1, 23]))); tags.add('stop:version_error')
         if len(evs) and evs[-1][0] == 'SRV' and stop < 0.15: evs.append(('ADV', [1500000], b''))
@@ -356,8 +356,29 @@ class C03(F.PropCheck):
                         cases.append(F.Case('s%s_%d_%d_%d_%d' % (tier[0], nrs, func, call, ch), evs, ['config_sweep', 'devcfg', 'device']))
         return cases
 
+    def enum_sweep(self, rng, tier):
+        """handlers that format or store a numeric field: REGISTER_DEVICE_RESULT result codes over the 32-bit domain (every defined
+        code, k*256+3, +-10^k boundaries, INT_MAX/INT_MIN), activity-timeout results, channel-state requests, version errors"""
+        C = consts(); cases = []
+        b = Board(0, 0, [(4, 0, 0, 0), (5, 1, 0, 0)], [], [(12, 1, 0, 4, 255, 0)])
+        codes = set(range(0, 40)) | {k * 256 + 3 for k in (1, 2, 255, 65536)} | {2 ** 31 - 1, -2 ** 31, -1, 255, 256, 65535}
+        for k in range(1, 10): codes |= {10 ** k - 1, 10 ** k, -(10 ** k - 1), -(10 ** k)}
+        for code in sorted(codes):
+            for (at, ver, vmin) in ((120, 23, 1), (0, 255, 255)):
+                evs = [('CFG', b.ints(), b''), ('SRV', [C['CALL_REGISTER_RESULT'], 10], struct.pack('<iBBB', code, at, ver, vmin)), ('ADV', [300000], b'')]
+                cases.append(F.Case('e%s_reg_%d_%d' % (tier[0], code, at), evs, ['enum_sweep', 'device', 'dev']))
+        misc = []
+        for v in (0, 1, 9, 10, 120, 240, 241, 255): misc.append((C['CALL_ACTIVITY_TIMEOUT_RESULT'], bytes([v, 255 - v, v])))
+        for ch in (0, 1, 7, 8, 255, 256, -1, 2 ** 31 - 1, -2 ** 31): misc.append((C['CALL_CHANNEL_STATE'], struct.pack('<ii', rng.choice([0, -1, 2 ** 31 - 1]), ch)))
+        for k in range(0, len(misc), 6):
+            evs = [('CFG', b.ints(), b'')] + [('SRV', [c, 10 + j], p) for j, (c, p) in enumerate(misc[k:k + 6])] + [('ADV', [300000], b'')]
+            cases.append(F.Case('e%s_misc_%d' % (tier[0], k), evs, ['enum_sweep', 'device', 'dev']))
+        for (a, v) in ((1, 23), (255, 0), (0, 255)):
+            cases.append(F.Case('e%s_ver_%d' % (tier[0], a), [('CFG', b.ints(), b''), ('SRV', [C['CALL_VERSIONERROR'], 10], bytes([a, v])), ('ADV', [300000], b'')], ['enum_sweep', 'device', 'dev']))
+        return cases
+
     def gen_cases(self, rng, n, tier):
-        cases = self.config_sweep(rng, tier)
+        cases = self.config_sweep(rng, tier) + self.enum_sweep(rng, tier)
         if tier != 'search': cases += self.gate_cases(rng, tier)
         for i in range(n): cases.append(self.device_case(rng, '%s%d' % (tier[0], i), tier))
         return cases
